@@ -73,7 +73,7 @@ var props = map[string]*PropSpec{
 	},
 	"C05": {
 		Level:        "exploration",
-		Scens:        []ScenSpec{{ID: "C05", QuickRuns: 2000, QuickSecs: 90, ThoroughRuns: 150000, ThoroughSecs: 900, CrashRule: "R3"}},
+		Scens:        []ScenSpec{{ID: "C05", QuickRuns: 4000, QuickSecs: 120, ThoroughRuns: 150000, ThoroughSecs: 900, CrashRule: "R3"}},
 		CoverageRule: "each run = one generated configuration in its own OS process: a well-formed flow skeleton plus 0-5 arbitrary extra connections between any endpoints in either direction (self-loops, back edges, cycles reachable under one condition, cycles in root-less response directions, undeclared names, bogus conditions), or pure noise; textual YAML mutations (duplicate key, missing parameter, dropped section, duplicate parameter); optional second flow; quota files with the usual mistakes. The gateway's own dry-run validation decides; accepted configurations are loaded for real under both load orders and driven with 10 transactions (random steering, empty / invalid JSON / 70 kB bodies, gzip header, odd paths) under a budget of 1000 processor executions per side; non-trivial = accepted by validation; distinct = configuration signatures among accepted runs; abstract states = rejection reasons and step counts",
 		Assumptions: []string{
 			"a processor-execution budget of 1000 per transaction side stands for 'bounded': graphs of this size have fewer than 20 paths",
